@@ -494,6 +494,9 @@ def run(chk: Check) -> None:
             f"TLS close: not an allowed observation (event #{pos}: {failing}) -- {t['meta']} events={[e['ev'] for e in t['events']]}",
             {"kind": "close_session", "meta": t["meta"], "events": t["events"]},
         )
+    from . import c09_endpoints
+
+    c09_endpoints.run(chk)
     slim = [{"par": t["par"], "events": t["events"]} for t in rec]
     res = traces.validate("TLSTruncationTrace", slim, cfg_text=TRACE_CFG, parallel=8, chunk=1500)
     chk.traces += len(rec)
